@@ -39,7 +39,7 @@ def sequences(depth, first=None, ops=None):
             continue
         if not valid(seq):
             continue
-        if "S" not in seq and not any(o[0] in "XR" for o in seq):
+        if "S" not in seq and not any(o[0] in "XRPD" for o in seq):
             continue
         # a load must be followed by at least one iteration somewhere for anything to be observable
         yield seq
@@ -59,6 +59,8 @@ def patterns():
     # complete run() calls on an object that is already in use (a second run continues from the stored history)
     out += [("R",), ("R", "R"), ("S", "R"), ("R", "S", "S"), ("R", "V0", "R", "L0", "S"), ("V0", "R", "L0", "R"), ("R", "R", "S")]
     # iterations aborted by a failure of the user's likelihood, mixed with checkpoints and complete runs
+    # the sampler is pickled / deep-copied in the middle of its life and the copy carries on
+    out += [("P", "S"), ("S", "P", "S", "S"), ("V0", "P", "S", "L0", "S"), ("P", "V0", "S", "P", "L0", "S"), ("D", "S", "S"), ("S", "D", "S", "V0", "S", "L0", "S"), ("P", "R"), ("D", "R", "S"), ("X4", "P", "S"), ("D", "X4", "S")]
     out += [("X1", "R"), ("X4", "V0", "S", "L0", "S"), ("V0", "X11", "L0", "S"), ("V0", "S", "X4", "V1", "L0", "X1", "S"), ("X4", "X4", "R"), ("R", "X1", "S")]
     return out
 
@@ -74,6 +76,8 @@ class Session:
         self.warm = warm
         self.err = None
         self.failures = 0
+        self.copies = 0
+        self.originals = []
 
     def _history_digest(self):
         h = self.p.state._history
@@ -112,6 +116,19 @@ class Session:
                             p.ll.fail_countdown = None
                     elif op == "R":
                         p.sampler.run(n_total=p.cfg.get("run_total", 3 * p.cfg["n_particles"]), progress=False)
+                    elif op in ("P", "D"):
+                        # P: the sampler goes through a pickle round trip, D: it is deep-copied; the session continues with the COPY.
+                        # After D the original stays alive and must not change while the copy is used.
+                        import copy as _copy
+                        import pickle as _pickle
+                        old = p.sampler
+                        new = _pickle.loads(_pickle.dumps(old)) if op == "P" else _copy.deepcopy(old)
+                        if op == "D":
+                            self.originals.append((old, pl.digest(pl.snap(old.state))))
+                        p.sampler, p.state = new, new.state
+                        f = new._core.config.log_likelihood
+                        p.ll = getattr(f, "f", f)
+                        self.copies += 1
                     elif op[0] == "V":
                         p.sampler.save_state(f"/memfs/sess/slot{op[1]}.state")
                     elif op[0] == "L":
@@ -119,6 +136,10 @@ class Session:
                         for m in p.monitors:
                             if hasattr(m, "reset"):
                                 m.reset()
+                    for k, (orig, dg) in enumerate(self.originals):
+                        if pl.digest(pl.snap(orig.state)) != dg:
+                            p.violate("session:deepcopy:original-changed", f"after {op}: the state of a sampler that was deep-copied earlier changed while only its copy was used")
+                            self.originals[k] = (orig, pl.digest(pl.snap(orig.state)))
                     if after_op is not None:
                         after_op(self, op)
         except Exception as e:
